@@ -105,6 +105,15 @@ func newWorld(conns []string) *world {
 		ch, _ := n.VerifAddConn(c, 1, 8192)
 		w.conns[c] = ch
 	}
+	// the node's own row of the connection picture, as connection establishment writes it: received
+	// updates must never touch it (the pruning loop of handleRoutingUpdate exempts it)
+	if len(conns) > 0 {
+		own := map[string]float64{}
+		for _, c := range conns {
+			own[c] = 1
+		}
+		n.VerifSetKnownConnectionCosts(map[string]map[string]float64{"self": own})
+	}
 	w.base = StableGoroutines(time.Second)
 	return w
 }
@@ -502,6 +511,19 @@ func runHistory(c *Ctx, im *Impl, r *Rng, hlen int, script []scripted) (conns []
 			}
 			g.cur[u.NodeID] = [2]uint64{u.UpdateEpoch, u.UpdateSequence}
 		}
+		// (O5) the node's own row (first-hand knowledge of its links) is never changed by a received update
+		if len(conns) > 0 {
+			own := o.Known["self"]
+			okRow := len(own) == len(conns)
+			for _, cn := range conns {
+				if own[cn] != 1 {
+					okRow = false
+				}
+			}
+			if !okRow {
+				im.Violate(fmt.Sprintf("a received update changed the node's own connection row: %v (connections %v)", own, conns), "own-row-changed", rec)
+			}
+		}
 		if ni, ok := o.Info[u.NodeID]; ok {
 			g.cur[u.NodeID] = ni
 		}
@@ -572,7 +594,15 @@ func emitCase(cf *CaseFile, conns []string, steps []step, kinds []string, label 
 	for i, cn := range conns {
 		cs[i] = CoqN(nm.id(cn))
 	}
-	init := fmt.Sprintf("{| ns_self := 1; ns_epoch := %d; ns_conns := %s; ns_info := []; ns_known := []; ns_seen := []; ns_down := false |}", selfEpoch, CoqList(cs))
+	known := "[]"
+	if len(conns) > 0 {
+		row := make([]string, len(conns))
+		for i, cn := range conns {
+			row[i] = fmt.Sprintf("(%d, 1)", nm.id(cn))
+		}
+		known = fmt.Sprintf("[(1, %s)]", CoqList(row))
+	}
+	init := fmt.Sprintf("{| ns_self := 1; ns_epoch := %d; ns_conns := %s; ns_info := []; ns_known := %s; ns_seen := []; ns_down := false |}", selfEpoch, CoqList(cs), known)
 	cf.Add(fmt.Sprintf("CFlood {| fc_init := %s; fc_hist := %s |}", init, CoqList(hs)), label)
 	return
 }
